@@ -771,6 +771,34 @@ func (y *vsSys) registrationProbes(s *vsState) *engine.Violation {
 		{"undecodable-key", func() error {
 			return k.RegisterExecutorChangePlan(1, h, valOf("o3"), "m", `{"@type":"/cosmos.crypto.ed25519.PubKey","key":"!!"}`, "i", e)
 		}},
+		{"undecodable-key[multisig with a null member]", func() error {
+			return k.RegisterExecutorChangePlan(1, h, valOf("o3"), "m", `{"@type":"/cosmos.crypto.multisig.LegacyAminoPubKey","threshold":1,"public_keys":[null]}`, "i", e)
+		}},
+		{"undecodable-key[multisig whose member has an unknown type]", func() error {
+			return k.RegisterExecutorChangePlan(1, h, valOf("o3"), "m", `{"@type":"/cosmos.crypto.multisig.LegacyAminoPubKey","threshold":1,"public_keys":[{"@type":"/no.such.Key","key":"AA=="}]}`, "i", e)
+		}},
+		{"undecodable-key[multisig without members]", func() error {
+			return k.RegisterExecutorChangePlan(1, h, valOf("o3"), "m", `{"@type":"/cosmos.crypto.multisig.LegacyAminoPubKey","threshold":0,"public_keys":[]}`, "i", e)
+		}},
+		{"undecodable-key[unknown type url]", func() error {
+			return k.RegisterExecutorChangePlan(1, h, valOf("o3"), "m", `{"@type":"/no.such.Key","key":"AA=="}`, "i", e)
+		}},
+		{"undecodable-key[type that is not a public key]", func() error {
+			return k.RegisterExecutorChangePlan(1, h, valOf("o3"), "m", `{"@type":"/opinit.opchild.v1.MsgUpdateParams"}`, "i", e)
+		}},
+		{"undecodable-key[no type]", func() error {
+			return k.RegisterExecutorChangePlan(1, h, valOf("o3"), "m", `{"key":"AA=="}`, "i", e)
+		}},
+		{"undecodable-key[null]", func() error { return k.RegisterExecutorChangePlan(1, h, valOf("o3"), "m", `null`, "i", e) }},
+		{"undecodable-key[empty object]", func() error { return k.RegisterExecutorChangePlan(1, h, valOf("o3"), "m", `{}`, "i", e) }},
+		{"undecodable-key[array]", func() error { return k.RegisterExecutorChangePlan(1, h, valOf("o3"), "m", `[]`, "i", e) }},
+		{"undecodable-key[empty string]", func() error { return k.RegisterExecutorChangePlan(1, h, valOf("o3"), "m", ``, "i", e) }},
+		{"undecodable-key[ed25519 with a null key]", func() error {
+			return k.RegisterExecutorChangePlan(1, h, valOf("o3"), "m", `{"@type":"/cosmos.crypto.ed25519.PubKey","key":null}`, "i", e)
+		}},
+		{"undecodable-key[ed25519 without a key]", func() error {
+			return k.RegisterExecutorChangePlan(1, h, valOf("o3"), "m", `{"@type":"/cosmos.crypto.ed25519.PubKey"}`, "i", e)
+		}},
 		{"key-not-json", func() error { return k.RegisterExecutorChangePlan(1, h, valOf("o3"), "m", "garbage", "i", e) }},
 		{"bad-operator", func() error { return k.RegisterExecutorChangePlan(1, h, "notanaddress", "m", good, "i", e) }},
 		{"operator-with-account-prefix", func() error { return k.RegisterExecutorChangePlan(1, h, world.Addr("o3").String(), "m", good, "i", e) }},
@@ -800,7 +828,13 @@ func (y *vsSys) registrationProbes(s *vsState) *engine.Violation {
 	before := world.PlansBytes(k.ExecutorChangePlans)
 	d0 := s.w.Digest(s.ctx)
 	for _, p := range probes {
-		err := p.f()
+		err, pv := func() (err error, pv any) {
+			defer func() { pv = recover() }()
+			return p.f(), nil
+		}()
+		if pv != nil {
+			return tagged(viol("malformed-plan-is-rejected", "malformed plan (%s) is not rejected: registration panics (%v); registration runs from the upgrade wiring outside any transaction, nothing recovers it", p.name, pv), "probe", p.name, "how", "panic")
+		}
 		if err == nil {
 			return tagged(viol("malformed-plan-is-rejected", "malformed plan (%s) was registered", p.name), "probe", p.name)
 		}
